@@ -225,6 +225,8 @@ type VC struct {
 	pkg         *ssa.Package
 	uf          map[string]bool
 	constDecls  []string
+	needNeedsWrite   bool
+	needsWriteAxioms []string // facts about function constants: does the contract demand a non-static context
 	pendingThis     *Val // struct holding the function value of a field-function call (bound to "this" in its contract)
 	pendingThisType types.Type
 	constEpoch  *epoch
@@ -994,3 +996,6 @@ func (vc *VC) decVal(t Term, which string) Term {
 	vc.decConsts[key] = c
 	return c
 }
+
+// needNeedsWriteDecl makes sure the needswrite predicate is declared in every query of this VC.
+func (vc *VC) needNeedsWriteDecl() { vc.needNeedsWrite = true }
